@@ -68,20 +68,24 @@ def run_core(kind, prop, tier, seed):
     return out
 
 
-TIMER_CFG = ("MCTimers_quick.cfg", "MCTimers_deep.cfg", "MCTimers_sim.cfg", 60, 1200, 12)
+TIMER_CFG = ("MCTimers_quick.cfg", "MCTimers_quick.cfg", "MCTimers_sim.cfg", 60, 600, 12)
 
 
 def run_timers(prop, tier, seed, cap=None, kcap=None):
     import random
     qc, tc, sc, qn, tn, depth = TIMER_CFG
     out = {"states": 0, "transitions": 0, "cases": [], "violations": [], "specs": ["Timers/" + (qc if tier == "quick" else tc), "Timers/" + sc]}
-    st, tr, bad, text = _tlc_mc("MCTimers.tla", qc if tier == "quick" else tc, "tm-%s" % prop)
-    out["states"] += st
-    out["transitions"] += tr
-    if bad:
-        out["violations"].append({"why": "design spec Timers violates the abstract monitor / its structural invariants: see TLC counterexample",
-                                  "replay": _save("%s-timers-mc" % prop, text), "sig": "tlc"})
-        return out
+    mcs = [qc] if tier == "quick" else [qc, "MCTimers_deepF.cfg", "MCTimers_deepX.cfg", "MCTimers_deepN.cfg"]
+    for mcfg in mcs:
+        st, tr, bad, text = _tlc_mc("MCTimers.tla", mcfg, "tm-%s" % prop)
+        out["states"] += st
+        out["transitions"] += tr
+        if mcfg != qc:
+            out["specs"].append("Timers/" + mcfg)
+        if bad:
+            out["violations"].append({"why": "design spec Timers (%s) violates the abstract monitor / its structural invariants: see TLC counterexample" % mcfg,
+                                      "replay": _save("%s-timers-mc" % prop, text), "sig": "tlc"})
+            return out
     n, bad, text = _tlc_sim("MCTimers.tla", sc, "tmsim-%s" % prop, qn if tier == "quick" else tn, depth, seed)
     out["states"] += n
     out["transitions"] += n
